@@ -117,6 +117,51 @@ func (e *E) Embedded() {
 	e.n++
 }
 
+func (t *T) lockKey(k string) func() { return func() {} }
+
+func (t *T) KeyedDefer(k string) {
+	defer t.lockKey(k)()
+	t.m[k] = 9
+}
+
+func (t *T) KeyedHandle(k string, c bool) error {
+	unlock := t.lockKey(k)
+	if c {
+		unlock()
+		return nil
+	}
+	t.m[k] = 10
+	unlock()
+	return nil
+}
+
+func (t *T) KeyedHandleDeferred(k string) {
+	unlock := t.lockKey(k)
+	defer unlock()
+	t.m[k] = 11
+}
+
+// seeded defect class 1: explicit unlock, an early return in between leaks the lock
+func (t *T) KeyedLeak(k string, c bool) error {
+	unlock := t.lockKey(k)
+	if c {
+		return nil
+	}
+	unlock()
+	return nil
+}
+
+// seeded defect class 2: deferred unlock plus an explicit one on some path
+func (t *T) KeyedDouble(k string, c bool) {
+	unlock := t.lockKey(k)
+	defer unlock()
+	if c {
+		unlock()
+	}
+}
+
+func (t *T) KeyedDropped(k string) { t.lockKey(k) }
+
 func (t *T) Loop(ks []string) {
 	for _, k := range ks {
 		t.mu.Lock()
@@ -146,7 +191,9 @@ func analyseMini(t *testing.T) (*analysis, map[string]heldSet) {
 	}
 	saved := trackedTypes
 	savedLF := lockFields
-	defer func() { trackedTypes, lockFields = saved, savedLF }()
+	savedKW := keyedWrappers
+	defer func() { trackedTypes, lockFields, keyedWrappers = saved, savedLF, savedKW }()
+	keyedWrappers = map[string]bool{"lockKey": true}
 	fz := frozen
 	trackedTypes = map[string]*typeSpec{
 		"mini.T": {fields: map[string]guard{"m": lk("mini.T.mu"), "late": lk("once:mini.T.once")}, others: &fz},
@@ -256,4 +303,10 @@ func TestBalance(t *testing.T) {
 	check("mini.T.Leak", "leaked")
 	check("mini.E.Embedded", "deferred")
 	check("mini.T.Loop", "matched", "matched")
+	check("mini.T.KeyedDefer", "deferred")
+	check("mini.T.KeyedHandle", "matched")
+	check("mini.T.KeyedHandleDeferred", "deferred")
+	check("mini.T.KeyedLeak", "leaked")
+	check("mini.T.KeyedDouble", "deferred", "unheld")
+	check("mini.T.KeyedDropped", "leaked")
 }
